@@ -646,7 +646,12 @@ class RatioOfMeans(  # noqa: D101
             return alt_distr.cdf(stat_critical)
         # two-sided
         stat_critical = null_distr.isf(self.alpha / 2)
-        return alt_distr.cdf(-stat_critical) + alt_distr.sf(stat_critical)
+        lower_tail = alt_distr.cdf(-stat_critical)
+        upper_tail = alt_distr.sf(stat_critical)
+        # The negligible far tail can be numerically undefined for a large noncentrality.
+        if math.isnan(lower_tail) != math.isnan(upper_tail):
+            return upper_tail if math.isnan(lower_tail) else lower_tail
+        return lower_tail + upper_tail
 
 
     @overload
